@@ -1020,6 +1020,7 @@ verif_commit_done:;
     fp2_set_one(&sig->E_aux.C);
     ec_point_init(&sig->E_aux.A24);
     sig->E_aux.is_A24_computed_and_normalized = 0;
+    theta_chain_finalize(&isog);
 
 cleanup:
     ibz_vec_2_finalize(&vec);
@@ -1289,6 +1290,7 @@ protocols_verif(signature_t *sig, const public_key_t *pk, const unsigned char *m
         extra_info);
     // a chain whose codomain does not split as a product of elliptic curves is rejected
     if (!chain_ok) {
+        theta_chain_finalize(&isog);
         goto cleanup;
     }
 
@@ -1313,6 +1315,7 @@ protocols_verif(signature_t *sig, const public_key_t *pk, const unsigned char *m
         ibz_mul(&vec_chall[1], &vec_chall[1], &check_vec_chall[0]);
         verif = (ibz_cmp(&vec_chall[1], &check_vec_chall[1]) == 0);
     }
+    theta_chain_finalize(&isog);
 
 cleanup:
     ibz_finalize(&tmp);
